@@ -39,16 +39,21 @@ def handle (op : String) (req : Json) : R Json := do
       | "mean" => pure true
       | "median" => pure false
       | _ => throw s!"bad kind {kind}"
+    -- "rint": the image has an integer dtype, np.pad rounds its pad values (half to even)
+    let (πmean, πmed) ← match (← getStr req "pad") with
+      | "exact" => pure (mean, median)
+      | "rint" => pure ((fun l => rint (mean l)), (fun l => rint (median l)))
+      | m => throw s!"bad pad mode {m}"
     match shape, block with
     | [n], [b] =>
-      let cells := if sq then meanCells1 b data else medianCells1 b data
+      let cells := if sq then meanCellsP1 πmean b data else medianCellsP1 πmed median b data
       let spec := (List.range n).map (fun i => if sq then specMean1 b data i else specMedian1 b data i)
       pure (jObj [("shape", jList jNat [cells.length]),
                   ("model", jList (jCell sq t) cells), ("spec", jList (jSpec sq t) spec),
                   ("unchanged", jBool (mustBeUnchanged t data))])
     | [n0, n1], [b0, b1] =>
       let x := chunk n1 data n0
-      let cells := if sq then meanCells2 b0 b1 x else medianCells2 b0 b1 x
+      let cells := if sq then meanCellsP2 πmean b0 b1 x else medianCellsP2 πmed median b0 b1 x
       let spec := (List.range n0).flatMap (fun i => (List.range n1).map (fun j =>
         if sq then specMean2 b0 b1 x i j else specMedian2 b0 b1 x i j))
       let rowlens := cells.map (·.length)
@@ -81,11 +86,15 @@ def handle (op : String) (req : Json) : R Json := do
       | "mean" => pure true
       | "median" => pure false
       | _ => throw s!"bad kind {kind}"
+    let (πmean, πmed) ← match (← getStr req "pad") with
+      | "exact" => pure (mean, median)
+      | "rint" => pure ((fun l => rint (mean l)), (fun l => rint (median l)))
+      | m => throw s!"bad pad mode {m}"
     match shape, block with
     | [_], [b] =>
       let spec := pixels.map (fun i => if sq then specMean1 b data i else specMedian1 b data i)
       let (shp, model) := if withModel then
-          let cells := if sq then meanCells1 b data else medianCells1 b data
+          let cells := if sq then meanCellsP1 πmean b data else medianCellsP1 πmed median b data
           (jList jNat [cells.length], jList (jCell sq t) cells)
         else (Json.null, Json.null)
       pure (jObj [("shape", shp), ("model", model), ("spec", jList (jSpec sq t) spec),
@@ -96,7 +105,7 @@ def handle (op : String) (req : Json) : R Json := do
       let spec := pixels.map (fun k =>
         if sq then specMean2 b0 b1 x (k / n1) (k % n1) else specMedian2 b0 b1 x (k / n1) (k % n1))
       let (shp, model) ← if withModel then do
-          let cells := if sq then meanCells2 b0 b1 x else medianCells2 b0 b1 x
+          let cells := if sq then meanCellsP2 πmean b0 b1 x else medianCellsP2 πmed median b0 b1 x
           let rowlens := cells.map (·.length)
           let shp := match rowlens with
             | [] => [0, 0]
